@@ -89,3 +89,40 @@ Theorem C07_ticket_guards_generated : forall uid st en rts winners status now,
     && negb (rts =? 0) && negb (uid <? 0) && negb ((status =? MK_DECLARED) && (zlen winners <? 1)) && forallb (fun o => 0 <=? o) winners.
 Proof. intros. split; [apply gen_update_Validate|apply gen_resolution_Validate]. Qed.
 Print Assumptions C07_ticket_guards_generated.
+
+(* the two handlers that move a market through its life cycle are generated from the source (msg_server_market.go Update,
+   msg_server_market_resolve.go Resolve with keeper Resolve) as functions on the state they reach (ticket verdict and payload, the market
+   stored under the payload's uid, the queue of resolved markets, the block time): the model's market_update / market_resolve accept exactly
+   when the generated handlers do, and what the generated handlers store is the model's new market record and queue *)
+Theorem C07_handlers_generated :
+  (forall tok uid st en status rp found mk q now,
+     K_mkt_msgUpdate (mkt_state tok (upd_payload uid st en status) rp found mk q now) =
+     if negb tok then None else if negb found then None
+     else if negb (status_ai (k_status mk)) then None
+     else if negb (status_ai status) then None
+     else if negb (market_ts_ok now st en) then None
+     else Some (mkt_state tok (upd_payload uid st en status) rp true (market_with mk st en status (k_winners mk) (k_rts mk)) q now)) /\
+  (forall tok up uid rts winners status found mk q now,
+     K_mkt_msgResolve (mkt_state tok up (res_payload uid rts winners status) found mk q now) =
+     if negb tok then None
+     else if negb (status_resolved status && negb ((status =? MK_DECLARED) && (1 <? zlen winners)) && negb (negb (status =? MK_DECLARED) && (0 <? zlen winners))
+                   && negb (rts =? 0) && negb (uid <? 0) && negb ((status =? MK_DECLARED) && (zlen winners <? 1)) && forallb (fun o => 0 <=? o) winners) then None
+     else if negb found then None
+     else if negb (status_ai (k_status mk)) then None
+     else if (status =? MK_DECLARED) && ((rts <? k_start mk) || negb (forallb (fun w => zmem w (k_odds mk)) winners)) then None
+     else Some (mkt_state tok up (res_payload uid rts winners status) true
+                  (market_with mk (k_start mk) (k_end mk) status (if status =? MK_DECLARED then winners else k_winners mk) rts) (q ++ (k_uid mk :: nil)) now)) /\
+  (forall s tk uid st en status rp x, get_ms s uid = Some x ->
+     (market_update s tk uid st en status = None <->
+      K_mkt_msgUpdate (mkt_state (ticket_ok s tk) (upd_payload uid st en status) rp true (ms_mkt x) (c_mqueue s) (c_now s)) = None)) /\
+  (forall s tk uid rts winners status up x, get_ms s uid = Some x ->
+     (market_resolve s tk uid rts winners status = None <->
+      K_mkt_msgResolve (mkt_state (ticket_ok s tk) up (res_payload uid rts winners status) true (ms_mkt x) (c_mqueue s) (c_now s)) = None)).
+Proof.
+  split; [exact gen_msgUpdate|]. split; [exact gen_msgResolve|]. split.
+  - intros s tk uid st en status rp x E. rewrite (model_market_update s tk uid st en status rp), E.
+    destruct (K_mkt_msgUpdate _); split; intros H; try reflexivity; discriminate.
+  - intros s tk uid rts winners status up x E. rewrite (model_market_resolve s tk uid rts winners status up), E.
+    destruct (K_mkt_msgResolve _); split; intros H; try reflexivity; discriminate.
+Qed.
+Print Assumptions C07_handlers_generated.
